@@ -260,6 +260,9 @@ DIRECTED = [
     "handlers = [lambda *args, **kwargs: (args, kwargs), lambda first, second, /: first + second, lambda value, *rest, flag=None: (value, rest, flag)]\n",
     "def f():\n    from django.db.models import Q\n    from re import I, M\n    alpha=beta=gamma=delta=epsilon=zeta=eta=theta=iota=kappa=lam=mu=nu=xi=omicron=pi=rho=sigma=1\n    return [alpha,beta,gamma,delta,epsilon,zeta,eta,theta,iota,kappa,lam,mu,nu,xi,omicron,pi,rho,sigma,Q,I,M,alpha,beta,gamma,delta,epsilon,zeta,eta,theta,iota,kappa,lam,mu,nu,xi,omicron,pi,rho,sigma]\n",
     "x = 1\ndef f(x):\n    class C:\n        x = x\n    return C.x\nprint(f(10))\n",
+    "value = 'module'\ndef f(value):\n    class C:\n        global value\n        seen = value\n        items = [item for item in value]\n    return C.seen, C.items, value\nprint(f('param'))\n",
+    'counter = 10\ndef outer(counter):\n    def middle():\n        class Holder:\n            global counter\n            snapshot = counter + 1\n            def method(self):\n                return counter\n        return Holder.snapshot, Holder().method(), counter\n    return middle()\nprint(outer(1))\n',
+    'total = 5\ndef g(total):\n    class K:\n        global total\n        total = total + 1\n    return total\nprint(g(100), total)\n',
     "result = A.join(['hello world', 'hello world', 'hello world', 'hello world'])\nother = B('hello world') + C\n",
     "def g():\n    return A, B, 'some repeated text', 'some repeated text', 'some repeated text', 'some repeated text'\nfirst_global = 1\nsecond_global = first_global + first_global\n",
     'def gérer_événement(résumé, année_courante=1):\n    compteur_übersicht = résumé\n    return compteur_übersicht, année_courante\nrésumé = gérer_événement(1)\nñandú = résumé\nprint(ñandú)\n',
